@@ -337,6 +337,40 @@ impl Pool {
         Err(Error::NoAssignableAddress)
     }
 
+    /* Runs a query returning (address, u32, u32) rows, and returns the first row whose address
+     * is in the pool being served.  A client can hold leases from several pools (eg after
+     * moving between subnets), so the best row overall need not be the best row in this pool.
+     */
+    fn first_lease_in_pool<P: rusqlite::Params>(
+        &self,
+        sql: &str,
+        params: P,
+        addresses: &PoolAddresses,
+    ) -> Result<Option<(std::net::Ipv4Addr, u32, u32)>, Error> {
+        let mut stmt = self
+            .conn
+            .prepare_cached(sql)
+            .map_err(|e| Error::emit("Database query Error", &e))?;
+        let rows = stmt
+            .query_map(params, |row| {
+                Ok((
+                    row.get::<usize, String>(0)?,
+                    row.get::<usize, u32>(1)?,
+                    row.get::<usize, u32>(2)?,
+                ))
+            })
+            .map_err(|e| Error::emit("Database query Error", &e))?;
+        for row in rows {
+            let (address, a, b) = row.map_err(|e| Error::emit("Database query Error", &e))?;
+            if let Ok(ip) = address.parse::<std::net::Ipv4Addr>()
+                && addresses.contains(&ip)
+            {
+                return Ok(Some((ip, a, b)));
+            }
+        }
+        Ok(None)
+    }
+
     fn select_address(
         &mut self,
         clientid: &[u8],
@@ -352,10 +386,8 @@ impl Pool {
          *
          * o The client's current address as recorded in the client's current
          *   binding, ELSE */
-        if let Some(lease) = self
-            .conn
-            .query_row(
-                "SELECT
+        if let Some((ip, _expiry, start)) = self.first_lease_in_pool(
+            "SELECT
                address,
                expiry,
                start
@@ -365,33 +397,22 @@ impl Pool {
              AND expiry > ?2
              ORDER BY
               address=?3 DESC,
-              expiry DESC
-             LIMIT 1",
-                rusqlite::params![
-                    clientid,
-                    ts as u32,
-                    requested
-                        .map(|ip| ip.to_string())
-                        .unwrap_or_else(|| "".into())
-                ],
-                |row| {
-                    Ok(Some((
-                        row.get::<usize, String>(0)?,
-                        row.get::<usize, u32>(1)?,
-                        row.get::<usize, u32>(2)?,
-                    )))
-                },
-            )
-            .or_else(map_no_row_to_none)?
-            && let Ok(ip) = lease.0.parse::<std::net::Ipv4Addr>()
-            && addresses.contains(&ip)
-        {
+              expiry DESC",
+            rusqlite::params![
+                clientid,
+                ts as u32,
+                requested
+                    .map(|ip| ip.to_string())
+                    .unwrap_or_else(|| "".into())
+            ],
+            addresses,
+        )? {
             // We want leases to double in size.  But normally you renew your
             // lease at ½ the duration.  We don't want to always just double
             // the lease, because you can accidentally end up with a ridiculously
             // long lease if you renew rapidly.
             // So instead we just use 3*renew.
-            let expiry = (ts as u32).saturating_sub(lease.2).saturating_mul(3);
+            let expiry = (ts as u32).saturating_sub(start).saturating_mul(3);
             return Ok(Lease {
                 ip,
                 expire: std::time::Duration::from_secs(expiry.into()),
@@ -403,10 +424,8 @@ impl Pool {
          * expired or released) binding, if that address is in the server's
          * pool of available addresses and not already allocated, ELSE */
 
-        if let Some(lease) = self
-            .conn
-            .query_row(
-                "SELECT
+        if let Some((ip, start, expire_time)) = self.first_lease_in_pool(
+            "SELECT
                address,
                start,
                max(expiry) as expire_time
@@ -417,33 +436,22 @@ impl Pool {
              ORDER BY
                address=?2 DESC,
                expire_time DESC
-             LIMIT 1
              ",
-                rusqlite::params![
-                    clientid,
-                    requested
-                        .map(|ip| ip.to_string())
-                        .unwrap_or_else(|| "".into())
-                ],
-                |row| {
-                    Ok(Some((
-                        row.get::<usize, String>(0)?,
-                        row.get::<usize, u32>(1)?,
-                        row.get::<usize, u32>(2)?,
-                    )))
-                },
-            )
-            .or_else(map_no_row_to_none)?
-            && let Ok(ip) = lease.0.parse::<std::net::Ipv4Addr>()
-            && addresses.contains(&ip)
-        {
+            rusqlite::params![
+                clientid,
+                requested
+                    .map(|ip| ip.to_string())
+                    .unwrap_or_else(|| "".into())
+            ],
+            addresses,
+        )? {
             return Ok(Lease {
                 ip,
                 /* If a device is constantly asking for the same lease, we should double
                  * the lease time.  This means transient devices get short leases, and
                  * devices that are more permanent get longer leases.
                  */
-                expire: std::time::Duration::from_secs(2 * (lease.2 - lease.1) as u64),
+                expire: std::time::Duration::from_secs(2 * (expire_time - start) as u64),
                 lease_type: LeaseType::Revived,
             });
         }
